@@ -1242,6 +1242,100 @@ def c08(tier, rng, rep, only=None):
         rep.violation("self-check: too few accepted declarations", {"kind": "coverage"}, no_input=True)
 
 
+# ------------------------------------------------------------------------------------- C02
+
+def c02(tier, rng, rep, only=None):
+    import verdicts
+    from syntax import INT_TYPES, ity_min, ity_max, bits_to_frac, f_next_up, f_next_down
+    decls = only if only is not None else verdicts.gen_c02_decls(rng.fork("c02"), tier)
+
+    def probes(d):
+        fam = d.family()
+        kind, v = d.rule
+        if fam == "int":
+            return [("i", x) for x in (v - 2, v - 1, v, v + 1, v + 2) if ity_min(d.inner) <= x <= ity_max(d.inner)]
+        if fam == "float":
+            is64 = FLOAT_TYPES[d.inner]
+            out = [v, v ^ (1 << (63 if is64 else 31))]
+            if bits_to_frac(v, is64) is not None:
+                out += [f_next_up(v, is64), f_next_down(v, is64)]
+            return [("f", x) for x in out]
+        return [("s", "a" * k_) for k_ in (v - 1, v, v + 1, v + 2) if k_ >= 0]
+
+    layout_inputs = {"i32": [("i", x) for x in (-5, 0, 3, 4, 7, 8, 10, 11, 100, 101, 150)],
+                     "String": [("s", x) for x in ["", "a", " ab ", "AB", "ab1", " Zz ", "abc"]],
+                     "f64": [("f", x) for x in (0, 1 << 63, 0x401C000000000000, 0xC01C000000000000, 0x7FF0000000000000, 0x7FF8000000000000, 0x3FF0000000000000)]}
+
+    def ops_for(g, d, r):
+        if "spelling" in d.tags:
+            g.add_ops(d, [("try_new", val_sexp(v)) for v in probes(d)], spec=True)
+        elif "layout" in d.tags:
+            info = runner.DeclInfo(d)
+            g.add_ops(d, [("try_new", val_sexp(v)) for v in layout_inputs[d.inner]] + ([("default", "")] if info.has_default else []), spec=False)
+    g = make_guard_run(tier, rng, decls=decls, ops_for=ops_for, spec=True, wsname="c02")
+    dropped = run_guard(g, rep, rng)
+    n = n_sp = n_lay = 0
+    for d in g.decls:
+        mv = g.model_verdict.get(d.id, "")
+        if (d.id in dropped) != mv.startswith("reject"):
+            rep.violation("verdict of %s differs: model %s, rustc %s" % (d.id, mv, (dropped.get(d.id) or ["compiles"])[0][:150]),
+                          {"kind": "verdict", "decl": d.to_json(), "decl_rust": runner.decl_module(d, None).split("pub fn run")[0]}, no_input=True)
+    fams = {}
+    for d in g.decls:
+        if d.id not in g.live:
+            continue
+        cs = g.by_decl.get(d.id, [])
+        if "spelling" in d.tags:
+            kind, v = d.rule
+            fam = d.family()
+            for c in cs:
+                n += 1
+                n_sp += 1
+                if c.impl is None:
+                    continue
+                if fam == "int":
+                    x, bv = int(c.arg[3:-1]), v
+                elif fam == "float":
+                    is64 = FLOAT_TYPES[d.inner]
+                    x, bv = bits_to_frac(int(c.arg[3:-1]), is64), bits_to_frac(v, is64)
+                else:
+                    x, bv = len(c.arg[2:-1].split()), v
+                if x is None or bv is None:
+                    continue
+                expected_ok = verdicts.REL[kind](x, bv)
+                if c.impl.startswith("ok") != expected_ok:
+                    rep.violation("rule `%s = <%s>` written in %s is not enforced with the denoted value: try_new(%s) gives %s"
+                                  % (kind, v, d.id, c.arg, c.impl), case_payload(c, g, {"written_rule": [kind, v]}))
+                elif c.impl != c.model:
+                    rep.violation("model and implementation differ on %s try_new(%s): %s vs %s" % (d.id, c.arg, c.impl, c.model),
+                                  case_payload(c, g), no_input=True)
+        elif "layout" in d.tags:
+            fams.setdefault(d.family_id, []).append(d)
+            for c in cs:
+                n += 1
+                n_lay += 1
+                if c.impl != c.model:
+                    rep.violation("model and implementation differ on %s %s(%s): %s vs %s" % (d.id, c.op, c.arg, c.impl, c.model),
+                                  case_payload(c, g), no_input=True)
+    for fid, members in fams.items():
+        ref_d = members[0]
+        ref_out = [c.impl for c in g.by_decl[ref_d.id]]
+        for d in members[1:]:
+            out = [c.impl for c in g.by_decl[d.id]]
+            if out != ref_out:
+                k_ = next(i for i, (a, b_) in enumerate(zip(out, ref_out)) if a != b_)
+                c = g.by_decl[d.id][k_]
+                rep.violation("the same rules written in a different layout behave differently: %s(%s) gives %s in %s but %s in %s"
+                              % (c.op, c.arg, c.impl, d.id, ref_out[k_], ref_d.id), case_payload(c, g, {"other_layout": ref_d.to_json()}))
+    rep.coverage.update({"evaluations": n, "distinct_nontrivial": n_sp,
+                         "rule": "(1) single-rule declarations for every bound spelling (signed / underscored literals, constants, negated constants, parenthesised, arithmetic, shifts, bit-or, T::MIN/MAX, calls, integer literal for a float bound, exponent floats, associated float constants) x every bound kind x several inner types: the real try_new at the denoted bound and its neighbours is compared with the verdict computed from the INTENDED value and kind (independent of the model) and with the model; (2) layout families: one rule set in every attribute order, with / without trailing commas, closures vs paths, regex literal vs static path: all members must behave identically",
+                         "spelling_probes": n_sp, "layout_probes": n_lay, "layout_families": len(fams), "declarations": len(g.decls), "exhaustive": False})
+    for c in g.cases[:: max(1, len(g.cases) // 6 or 1)][:6]:
+        rep.samples.append({"decl": c.decl.id, "rule": getattr(c.decl, "rule", None), "op": c.op, "arg": c.arg, "impl": c.impl})
+    if n_sp == 0 and only is None:
+        rep.violation("self-check: no spelling probed", {"kind": "coverage"}, no_input=True)
+
+
 PROPS = {
     "C01": (["Props/C01.v"], c01, ["bound expressions evaluate without overflow (corpus keeps them in range)",
                                    "user closures are total functions (library of harness/rtgen.py)",
@@ -1271,6 +1365,8 @@ PROPS = {
     "C08": (["Props/C08.v"], c08, ["rustc's verdict is read from cargo JSON diagnostics attributed to declarations by span",
                                    "typing of bound expressions, derive dependencies and const-fn bodies are rustc rules modelled in Macro/Validate.rustc_checks",
                                    "the regex crate decides the validity of regex literals (oracle table regex_lib)"]),
+    "C02": (["Props/C02.v"], c02, ["float literal values are Rust's decimal parse of the literal text (computed by the harness with exact rational rounding and checked here against the real behaviour)",
+                                   "repeated blocks and malformed attributes are covered by the verdict corpus of C08"]),
     "C06": (["Props/C06.v"], c06, ["the inner type's FromStr is an oracle (its real result is given to the model)",
                                    "`Any`/generic inner types with FromStr are not in the corpus yet"]),
 }
